@@ -81,13 +81,15 @@ Definition srep_eqb (a b : srep) : bool :=
 Record sstep := SStep { q_op : qop; q_res : option Z; q_abs : list Z; q_panic : bool }.
 
 (* the number of the Go zero value (what an empty ring slot holds): its place in the universe when it is an element,
-   -1 (the harness's number for a zero value that is not an element) otherwise *)
+   -1 (the harness's number for a zero value that is not an element) otherwise.  A universe holds values of ONE Go type
+   (and the harness's pointer universes have no pointer to 0, its map universes no empty non-nil map), so the first
+   candidate found is that type's zero value. *)
 Definition zero_of (ec : codec) : Z :=
-  match index_of jeqb (JNum 0) (cj ec) 0, index_of jeqb (JStr []) (cj ec) 0 with
-  | Some i, _ => i
-  | None, Some i => i
-  | None, None => -1
-  end.
+  (fix first (cands : list jval) : Z :=
+     match cands with
+     | [] => -1
+     | c :: t => match index_of jeqb c (cj ec) 0 with Some i => i | None => first t end
+     end) [JNum 0; JStr []; JNull; JObj []].     (* int, string, nil slice / pointer / map, struct with every field omitted *)
 (* Dequeue as repaired by 0021: no zero-value test *)
 Definition no_zero (v : Z) : bool := false.
 
